@@ -1,4 +1,4 @@
-"""X01 - behaviour OUTSIDE the property list (DESIGN.md section 7): is_aggregate votes, EmptyCriterion folds, immutable=False.
+"""X01 - behaviour OUTSIDE the property list (DESIGN.md section 7): is_aggregate votes, EmptyCriterion folds, render paths, immutable=False.
 
 Not a property of properties.jsonl and not in MANIFEST.json: the specification is grown to say what the library does here, and the
 same generator / judge machinery binds it to the code.  A discrepancy means the library's behaviour moved away from what the
@@ -61,6 +61,32 @@ def run(tier: str) -> int:
                     st, ids = "unrenderable", []
             events.append({"tid": len(events), "kind": "fold", "tree": {"k": "num", "n": "0"}, "obs": "", "parts": parts, "st": st, "ids": ids})
             meta.append(("fold-" + how, parts))
+    # 1b. render paths: every catalogue statement (seed, and seed + one call) through str / repr / get_sql() / get_sql(class context)
+    import hashlib
+
+    fams0 = catalog.families()
+    n_paths = 0
+    for fname in sorted(fams0):
+        fam = fams0[fname]
+        if not (fname.startswith("qb_") or fname.startswith("setop") or fname.startswith("ddl") or fname.startswith("create")):
+            continue
+        for sname in fam.seeds:
+            for lname in [None] + [l for l in fam.labels if "#pool" not in l]:
+                catalog.reset_pool()
+                try:
+                    o = fam.seeds[sname]()
+                    if lname:
+                        o = fam.labels[lname].fn(o)
+                    qc = getattr(o, "QUERY_CLS", None)
+                    if qc is None or not hasattr(o, "get_sql"):
+                        continue
+                    outs = [str(o), repr(o), o.get_sql(), o.get_sql(qc.SQL_CONTEXT)]
+                except Exception:  # noqa  (a rejected call / a statement that does not render: nothing to compare)
+                    continue
+                n_paths += 1
+                events.append({"tid": len(events), "kind": "paths", "tree": {"k": "num", "n": "0"}, "obs": "", "parts": [], "st": "",
+                               "ids": [hashlib.sha1(x.encode("utf-8", "surrogatepass")).hexdigest()[:10] for x in outs]})
+                meta.append(("paths", {"family": fname, "seed": sname, "label": lname, "texts": outs}))
     results = tlc.judge_shards("J_Meta", "INIT Init\nNEXT Next\n", events, shard=max(500, len(events) // 8 + 1))
     rep.add_tlc(results)
     if sum(max(x.distinct - 1, 0) for x in results) != len(events):
@@ -69,7 +95,9 @@ def run(tier: str) -> int:
         for v in res.json_tagged("V"):
             kind, what = meta[v["tid"]]
             e = events[v["tid"]]
-            if kind == "agg":
+            if kind == "paths":
+                rep.discrepancy([["render-paths", what["family"], what["label"] or ""]], what, what="str / repr / get_sql() / get_sql(class context) give different texts")
+            elif kind == "agg":
                 rep.discrepancy([["is_aggregate", what["k"], what.get("op", "") or what.get("f", ""), v["want"], e["obs"]]],
                                 {"tree": what, "recorded_behaviour": v["want"], "observed": e["obs"]}, what="is_aggregate differs from the recorded vote")
             else:
@@ -120,7 +148,7 @@ def run(tier: str) -> int:
     rep.traces = len(events) + n_mut
     rep.evaluations = rep.traces
     rep.distinct = {json.dumps(m[1], sort_keys=True) for m in meta}
-    rep.extra.update({"is_aggregate_trees": len(trees), "empty_criterion_folds": 2 * len(folds), "mutable_mode_chains": n_mut,
+    rep.extra.update({"render_path_statements": n_paths, "is_aggregate_trees": len(trees), "empty_criterion_folds": 2 * len(folds), "mutable_mode_chains": n_mut,
                       "mutable_model_states": rm.distinct})
     rep.sample({"tree": trees[0], "is_aggregate": events[0]["obs"]})
     rep.rule = ("behaviours outside the property list: is_aggregate of every tree of MC_Meta (depth <= 2 over leaves of every vote) vs PT_Meta!IsAgg; "
